@@ -67,6 +67,18 @@ pub fn build_world(scn: &Scenario, built: &Built, layout: &Layout, faults: &[Dis
         }
     }
 
+    // directory iteration order depends on creation order on some file systems:
+    // half of the extra entries are created before the blk files, half after
+    for (k, x) in layout.extra_files.iter().enumerate() {
+        if k % 2 == 0 {
+            let p = dir.join(&x.name);
+            if x.is_dir {
+                fs::create_dir_all(&p).map_err(e)?;
+            } else {
+                fs::write(&p, &x.bytes.0).map_err(e)?;
+            }
+        }
+    }
     for f in &layout.files {
         let name = blk_name(f.number, f.width);
         let path = dir.join(&name);
@@ -141,7 +153,10 @@ pub fn build_world(scn: &Scenario, built: &Built, layout: &Layout, faults: &[Dis
     if !key.is_empty() {
         fs::write(dir.join("xor.dat"), &key).map_err(e)?;
     }
-    for x in &layout.extra_files {
+    for (k, x) in layout.extra_files.iter().enumerate() {
+        if k % 2 == 0 {
+            continue;
+        }
         let p = dir.join(&x.name);
         if x.is_dir {
             fs::create_dir_all(&p).map_err(e)?;
